@@ -229,8 +229,8 @@ def replay_xh_concrete(path: Path, cex: dict, workdir: Path, tag: str):
 
 
 def write_replay(prop: str, obl: Obl, body: str, harness_path: Path | None):
-    d = VERIF / "replays"
-    d.mkdir(exist_ok=True)
+    d = Path(os.environ.get("VT_REPLAY_DIR") or (VERIF / "replays"))
+    d.mkdir(exist_ok=True, parents=True)
     name = re.sub(r"[^A-Za-z0-9_.-]", "_", obl.id)
     if harness_path is not None:
         hp = d / (name + "__harness.py")
@@ -434,6 +434,6 @@ def write_evidence(prop, tier, seed, verdicts, meta, wall, n_viol):
         "wall_s": round(wall, 2),
         "violations": n_viol,
     }
-    d = VERIF / "evidence"
-    d.mkdir(exist_ok=True)
+    d = Path(os.environ.get("VT_EVIDENCE_DIR") or (VERIF / "evidence"))
+    d.mkdir(exist_ok=True, parents=True)
     (d / f"{prop}.json").write_text(json.dumps(ev, indent=1, default=str))
